@@ -1,8 +1,8 @@
 #!/bin/bash
 # usage: tools/run_all.sh [tier] [parallelism]  -- runs every claimed check on the unchanged tree, prints the summary lines
 tier="${1:-quick}"; par="${2:-4}"
-cd /verif
+cd "$(dirname "$(dirname "$(realpath "$0")")")"
 props=$(python3 -c "import json; print(' '.join(c['property_id'] for c in json.load(open('MANIFEST.json'))['checks']))")
-mkdir -p /tmp/runall
-echo $props | tr ' ' '\n' | xargs -P $par -I{} bash -c "./check {} --tier $tier > /tmp/runall/{}.log 2>&1; echo \"{} rc=\$?\""
-for p in $props; do tail -1 /tmp/runall/$p.log; grep -c "^VIOLATION" /tmp/runall/$p.log | sed "s/^/  violations lines: /" | grep -v ": 0" ; done
+mkdir -p /tmp/runall_$tier
+echo $props | tr ' ' '\n' | xargs -P $par -I{} bash -c "./check {} --tier $tier > /tmp/runall_$tier/{}.log 2>&1; echo \"{} rc=\$?\""
+for p in $props; do tail -1 /tmp/runall_$tier/$p.log; grep -c "^VIOLATION" /tmp/runall_$tier/$p.log | sed "s/^/  violations lines: /" | grep -v ": 0" ; done
